@@ -56,9 +56,23 @@ def check_rules(case: typing.Any, ctx: Ctx) -> Info:
             pydsdl.read_namespace, root, [], allow_unregulated_fixed_port_id=model["allow_unregulated"],
             allowed=(pydsdl.InvalidDefinitionError,), what="read",
         )
+        flipped = None
+        if model["port"] is not None:
+            # the same files once more with the other setting of the flag: the verdict is a function of the definition and the
+            # flag, not of what an earlier call in this process concluded
+            other = dict(model, allow_unregulated=not model["allow_unregulated"])
+            res2, ex2 = guarded(pydsdl.read_namespace, root, [], allow_unregulated_fixed_port_id=other["allow_unregulated"], allowed=(pydsdl.InvalidDefinitionError,), what="read:flag-flipped")
+            flipped = (rules.validate(other, rg.DEP_TABLE), ex2)
     finally:
         ctx.cleanup(d)
     where = "%s/%s:\n%s" % ("/".join([model["root"]] + model["ns"]), fn, text)
+    if flipped is not None:
+        v2, ex2 = flipped
+        w2 = where + "\n(second call in the same process, allow_unregulated_fixed_port_id=%s after %s)" % (not model["allow_unregulated"], model["allow_unregulated"])
+        if v2 is None:
+            require(ex2 is None, "valid-definition-rejected:after-call-with-other-flag", "accepted", "%s: %s" % (type(ex2).__name__, str(ex2)[-300:]), w2)
+        else:
+            require(ex2 is not None, "invalid-definition-accepted:after-call-with-other-flag:" + v2, "InvalidDefinitionError (%s)" % v2, "accepted", w2)
     if verdict is None:
         require(ex is None, "valid-definition-rejected", "accepted", "%s: %s" % (type(ex).__name__, str(ex)[-300:]), where)
         names = {t.short_name for t in res}
@@ -107,8 +121,20 @@ def check_rules_in_dependency(case: typing.Any, ctx: Ctx) -> Info:
             pydsdl.read_files, [os.path.join(app, "Target.1.0.dsdl")], [app], [lib], None, model["allow_unregulated"],
             allowed=(pydsdl.InvalidDefinitionError,), what="read_files:dependency",
         )
+        flipped = None
+        if model["port"] is not None:
+            other = dict(model, allow_unregulated=not model["allow_unregulated"])
+            res2, ex2 = guarded(pydsdl.read_files, [os.path.join(app, "Target.1.0.dsdl")], [app], [lib], None, other["allow_unregulated"], allowed=(pydsdl.InvalidDefinitionError,), what="read_files:dependency:flag-flipped")
+            flipped = (rules.validate(other, rg.DEP_TABLE), ex2)
     finally:
         ctx.cleanup(d)
+    if flipped is not None:
+        v2, ex2 = flipped
+        w2 = "dependency %s (second call in the same process with allow_unregulated_fixed_port_id=%s)\n%s" % (fn, not model["allow_unregulated"], text)
+        if v2 is None:
+            require(ex2 is None, "valid-dependency-rejected:after-call-with-other-flag", "accepted", "%s: %s" % (type(ex2).__name__, str(ex2)[-300:]), w2)
+        else:
+            require(ex2 is not None, "invalid-dependency-accepted:after-call-with-other-flag:" + v2, "InvalidDefinitionError (%s)" % v2, "accepted", w2)
     where = "dependency %s/%s (%s root), referenced from app/Target.1.0:\n%s" % ("/".join([model["root"]] + model["ns"]), fn, "foreign" if foreign else "same", text)
     if verdict is None:
         require(ex is None, "valid-dependency-rejected", "accepted", "%s: %s" % (type(ex).__name__, str(ex)[-300:]), where)
